@@ -59,7 +59,10 @@ def shape_spec(shape):
     if k == "item":     # ItemSpace: parameter formula and cells inside the instance as failure points
         P = {"formula": "def _formula(i):\n    t = tick()\n    return None\n",
              "refs": {"zz": 0},
-             "cells": {"c": def_formula("c", "", [], 3), "d": def_formula("d", "x", ["c()"], 0)}}
+             # the space allows None, the cells themselves do not: instances must follow the cells' own setting
+             "allow_none": True,
+             "cells": {"c": {"src": def_formula("c", "", [], 3), "allow_none": False},
+                       "d": {"src": def_formula("d", "x", ["c()"], 0), "allow_none": False}}}
         S = {"refs": {"P": {"obj": "P"}, "zz": 0},
              "cells": {"it": def_formula("it", "x", ["P[x].c()", "P[x].d(1)"], 0),
                        "top": def_formula("top", "", ["it(1)", "it(2)"], 0)}}
